@@ -329,3 +329,22 @@ Definition wait_key (p : pc) : option Z :=
   match p with PWaiting k _ | PGiveDel k _ | PGiveRecv k _ => Some k | _ => None end.
 Definition reg_key (p : pc) : option Z :=
   match p with PWaiting k _ | PGiveDel k _ => Some k | _ => None end.
+(* ---------- running connections (C27, "live" in the physical sense) ---------- *)
+(* the connection's Run has returned *)
+Definition exited_in (cs : Z -> option conn) (c : Z) : bool :=
+  match cs c with Some r => c_exited r | None => false end.
+(* number of created connections whose Run has not returned *)
+Fixpoint running (cs : Z -> option conn) (l : list Z) : Z :=
+  match l with [] => 0 | c :: t => (if exited_in cs c then 0 else 1) + running cs t end.
+(* environment premise: a connection makes Invoke fail with a retryable "dead" error only after its Run
+   has returned.  NOT guaranteed by pool.Conn implementations (see Prop/C27.v). *)
+Definition strict_ok (st : state) (e : event) : Prop :=
+  match e with
+  | EInvRet x RDead _ => forall c, s_pc st x = PHolding c -> exited_in (s_conns st) c = true
+  | _ => True
+  end.
+Fixpoint strict_run (st : state) (l : list event) : Prop :=
+  match l with
+  | [] => True
+  | e :: t => strict_ok st e /\ match step st e with Some st' => strict_run st' t | None => True end
+  end.
